@@ -25,6 +25,7 @@ def fmt_variants():
         "comment": lambda l, m, o: "%s %s %s ; a comment, with $ymbols #1" % (l, m, o) if m != "FCC" else "%s %s %s" % (l, m, o),
         "lower": lambda l, m, o: "%s %s %s" % (l, m.lower(), o),
         "mixedcase": lambda l, m, o: "%s %s %s" % (l, m.capitalize(), o),
+        "unique-comments": None,       # a different comment on every line (set up in obligations)
         "tab-comment": lambda l, m, o: "%s\t\t%s  \t%s\t; x" % (l, m, o) if (o and m != "FCC") else "%s\t%s\t%s" % (l, m, o),
     }
 
@@ -168,6 +169,16 @@ def obligations(tier, seed):
         obs.append(make_shift(pname))
         for vname, f in fmt_variants().items():
             if not full and pname != "hello" and vname in ("wide", "mixedcase", "tab-comment"):
+                continue
+            if vname == "unique-comments":
+                def tru(body):
+                    counter = [0]
+
+                    def fmt(l, m, o):
+                        counter[0] += 1
+                        return "%s %s %s" % (l, m, o) if (m == "FCC" or not o) else "%s %s %s ; note %d" % (l, m, o, counter[0])
+                    return body, fmt, None, None
+                obs.append(make_pair("format", pname, vname, tru))
                 continue
             obs.append(make_pair("format", pname, vname, (lambda f: (lambda body: (body, f, None, None)))(f)))
         for rname, f in RENAMES.items():
